@@ -137,7 +137,7 @@ impl MemcStore {
                     })
                     .map(|mut value: u64| {
                         if increment {
-                            value += delta.delta;
+                            value = value.wrapping_add(delta.delta);
                         } else if delta.delta > value {
                             value = 0;
                         } else {
